@@ -685,6 +685,10 @@ class Function(object):
         # Verify point is a Point
         assert isinstance(point, Point)
 
+        # Remove the leaf functions that are not really involved in the decomposition of self (null weights),
+        # so that they are not asked for a gradient or a function value they do not contribute to.
+        self.decomposition_dict = prune_dict(self.decomposition_dict)
+
         # If those values already exist, simply return them.
         # If not, instantiate them before returning.
         # Note if the non-differentiable case, the gradient is recomputed anyway.
